@@ -185,7 +185,9 @@ func (s *Sim) startGateway() {
 	done := make(chan error, 1)
 	s.gwDone = done
 	go func() {
+		simrt.Resume("harness/gateway-start")
 		err := gw.ListenAndServe(ctx, gwAddr)
+		simrt.Resume("harness/gateway-returned")
 		s.W.Log("gw", "serve-return", nil, fmt.Sprint(err), 0)
 		done <- err
 	}()
@@ -312,6 +314,9 @@ func (s *Sim) finish(res *Result) {
 	if w.Stalls > 0 {
 		s.faults["stall"] += int(w.Stalls)
 	}
+	if w.TieBreaks > 0 {
+		s.faults["same-site-arrivals-ordered-by-goroutine-id"] += int(w.TieBreaks)
+	}
 	if w.Overlaps > 0 {
 		s.faults["event-overtakes-parked-goroutines"] += int(w.Overlaps)
 	}
@@ -415,6 +420,7 @@ func errStr(err error) string {
 func (a *clientActor) handler(filter string) client.MessageHandlerFunc {
 	name := a.plan.Name
 	return func(cl *client.Client, topic string, p *pkts1.Publish) {
+		simrt.Resume("harness/handler:" + name) // (the client runs callbacks in goroutines of their own)
 		a.s.W.Log("handler:"+name, "msg", append([]byte(nil), p.Data...), filter+"|"+topic, int64(p.QOS))
 	}
 }
@@ -476,16 +482,19 @@ func (a *clientActor) do(i int, op ClientOp) {
 	default:
 		err = fmt.Errorf("sim: unknown op %q", op.Op)
 	}
+	simrt.Resume("harness/api-return:" + a.plan.Name)
 	w.Log(ch, "return", nil, errStr(err), int64(i))
 }
 
 func (a *clientActor) run() {
+	simrt.Resume("harness/actor-start:" + a.plan.Name)
 	for i, op := range a.plan.Ops {
 		if op.GapMs > 0 {
 			// released by a driver event with an odd-nanosecond offset: never ties with code timers
 			c := make(chan struct{})
 			a.s.W.After(ms(op.GapMs)+a.s.W.HarnessJitter("gap", a.plan.Name, i), fmt.Sprintf("gap:%s:%04d", a.plan.Name, i), func() { close(c) })
 			<-c
+			simrt.Resume("harness/actor-gap:" + a.plan.Name)
 		}
 		if op.Async {
 			i, op := i, op
